@@ -273,6 +273,29 @@ def rule_peer_values(ctx):
         if use:
             must_pass(ctx, R, fa, ga, [ga.entry], use, eff, "ECDHE: " + what,
                       "the client computes a shared key on a curve it did not advertise", start_after=False)
+    # meaning of the value checks of the key exchange classes, over boundary values
+    from .common import spec_rows
+    spec_rows(ctx, R, KX + "ADHKeyExchange.processServerKeyExchange", [
+        dict(what="FFDH: server prime of at least 1024 bits",
+             dom={"dh_p": [2 ** 1023 - 1, 2 ** 1023, 2 ** 1023 + 1, 2 ** 2047]},
+             abort=lambda e: e["dh_p"] < 2 ** 1023,
+             msg="the client must refuse a Diffie-Hellman prime shorter than 1024 bits")])
+    spec_rows(ctx, R, KX + "AECDHKeyExchange.processClientKeyExchange", [
+        dict(what="ECDH: client share present", dom={"ecdhYc": [b"", b"\x04xy"]},
+             abort=lambda e: not e["ecdhYc"], msg="an empty client ECDH share must be refused"),
+        dict(what="ECDH: a common point format when both sides sent ec_point_formats",
+             dom={"ecdhYc": [b"\x04xy"], "ext_c": [True], "ext_s": [True, None], "ext_c.formats": [(0,), (1,), (1, 0)],
+                  "ext_s.formats": [(0,), (1,)]},
+             abort=lambda e: bool(e["ext_s"]) and not set(e["ext_c.formats"]) & set(e["ext_s.formats"]),
+             msg="without a common EC point format the key exchange must be refused")])
+    spec_rows(ctx, R, KX + "AECDHKeyExchange.processServerKeyExchange", [
+        dict(what="ECDH: named curve we advertised and a non-empty server share",
+             dom={"serverKeyExchange.curve_type": [1, 3], "ECCurveType.named_curve": [3],
+                  "serverKeyExchange.named_curve": [23, 24], "self.acceptedCurves": [(23,), (24, 23)],
+                  "ecdh_Ys": [b"", b"\x04xy"]},
+             abort=lambda e: e["serverKeyExchange.curve_type"] != 3
+             or e["serverKeyExchange.named_curve"] not in e["self.acceptedCurves"] or not e["ecdh_Ys"],
+             msg="the client must refuse a curve type/curve it did not advertise and an empty share")])
 
 
 def rule_consume_c10(ctx):
